@@ -83,7 +83,8 @@ func c14ChainField(r *Run, fix *ssa.Function, key, addrGlob, hashType string) {
 // values the go statement passes for those parameters (evaluated at the go statement, in the
 // caller) — or variables of the caller that the literal captures and that hold one value
 // throughout (a parameter never reassigned, a local assigned once before the literal is made and
-// written by no literal: c14CellValue) — they are resolved to that value.  So the rule decides
+// written by no literal: c14CellValue; or a local whose last assignment before the literal is made is
+// the same on every path and is followed by none: c14CellAt) — they are resolved to that value.  So the rule decides
 // "cache.Set(key, value) is called with …" whatever carries the call and the values.
 func c14CacheFill(r *Run, g *ssa.Go) (key, val ssa.Value, why string) {
 	callee := g.Call.StaticCallee()
@@ -119,8 +120,10 @@ func c14CacheFill(r *Run, g *ssa.Go) (key, val ssa.Value, why string) {
 // c14OnlyUnder: instruction in executes only when the atom has the given value: fn tests the atom,
 // and with any other value of its domain no walk from the entry reaches in.
 func c14OnlyUnder(r *Run, fn *ssa.Function, in ssa.Instruction, atom, val string) bool {
+	// the atom is named by what it tests (a term as c14D renders it): find the key PSR knows it under
+	atom = c14AtomFor(r, fn, atom)
 	ci := r.D.AtomsOf(fn)[atom]
-	if ci == nil {
+	if atom == "" || ci == nil {
 		return false
 	}
 	for _, x := range domains[ci.Kind] {
